@@ -23,7 +23,7 @@ def main():
     meta = json.load(open(os.path.join(sd, "meta.json")))
     neutral = "--neutral" in sys.argv
     props = [a for a in sys.argv[2:] if not a.startswith("--")] or [meta["property"]]
-    tag = os.path.basename(sd).lower()
+    tag = (os.path.basename(os.path.dirname(sd)) + "-" + os.path.basename(sd)).lower()  # seeded-c16-1 vs neutral-c16-1
     wt = "/tmp/seed-wt-" + tag
     lean = "/var/tmp/seed-lean-" + tag
     sh(["git", "-C", "/repo", "worktree", "remove", "--force", wt])
